@@ -29,6 +29,10 @@ static inline uint64_t v_spec_interval(uint32_t ni) {
     return q < 6u ? 6u : q;
 }
 
+/* ---- C08 per-request relation (spec level) ------------------------------------------------------ */
+static inline size_t v_lt_len(size_t size, size_t off, size_t P) { size_t rem = size > off ? size - off : 0; return rem > P ? P : rem; }
+static inline bool v_lt_more(size_t size, size_t off, size_t P) { size_t rem = size > off ? size - off : 0; return rem > P; }
+
 /* ---- Hello property list ----------------------------------------------------------------------- */
 #define V_HELLO_TLV_OFF 46u
 #define V_HELLO_MAX_TLVS 22u
@@ -257,6 +261,19 @@ static inline void v_frame_check(const uint8_t *f, size_t len) {
             V_REQUIRE("C07.resp.descriptor-real: each listed observation as received (real source)", v_mac_eq_at(f, o + 2, e.real.a));
             V_REQUIRE("C07.resp.descriptor-src: each listed observation as received (Ethernet source)", v_mac_eq_at(f, o + 8, e.src.a));
             V_REQUIRE("C07.resp.descriptor-dst: each listed observation as received (Ethernet destination)", v_mac_eq_at(f, o + 14, e.dst.a));
+        }
+    }
+    if (g_req.kind == V_K_QLTV) {
+        size_t P = v_eff_mtu() - 34u;
+        size_t rem = (g_req.lt_data != NULL && g_req.lt_size > g_req.lt_off) ? g_req.lt_size - g_req.lt_off : 0;
+        size_t n_exp = rem > P ? P : rem;
+        uint16_t w = v_be16(f + 32);
+        bool exact = ((size_t)(w & 0x3FFFu) == n_exp) && (((w & 0x8000u) != 0) == (rem > P));
+        bool empty = (w == 0);
+        V_REQUIRE("C08.chunk: length = min(what fits, what remains from the offset); 'more' iff bytes remain beyond it",
+                  exact || (g_req.lt_fault && empty));
+        if (exact && g_k < n_exp) {
+            V_REQUIRE("C08.payload: the bytes at the requested offset", f[34 + g_k] == g_req.lt_data[(size_t)g_req.lt_off + g_k]);
         }
     }
     if (g_req.kind == V_K_QRESP || g_req.kind == V_K_QLTV) {
